@@ -610,6 +610,12 @@ class Resolver:
                 i = pos.index(name)
                 if i < len(args) and not any(isinstance(x, ast.Starred) for x in args[: i + 1]):
                     bound = args[i]
+                else:
+                    # f(*xs): the parameter is an element of xs
+                    star = next((x for x in args[: i + 1] if isinstance(x, ast.Starred)), None)
+                    if star is not None and cctx is not None:
+                        out += self._resolve_elem(star.value, (), cctx, depth + 1)
+                        continue
             if bound is None:
                 for kw in call.keywords:
                     if kw.arg == name:
